@@ -160,8 +160,28 @@ def eff_cuts(case):
     return [Fr(c) * Fr(case["scale"]) ** 2 for c in case["cuts"]]
 
 
+def gabriel_exact_np(D, n):
+    """gabriel_exact for a few hundred points: the same brute-force definition, one row of pairs at a time in
+    exact int64 arithmetic (diagonal = 2^40 so that k = i and k = j never block or tie)"""
+    A = np.array(D, dtype=np.int64)
+    np.fill_diagonal(A, 1 << 40)
+    G = np.zeros((n, n), dtype=bool)
+    ties = 0
+    for i in range(n):
+        T = A[i][None, :] + A                    # T[j, k] = D[i, k] + D[j, k]
+        dij = A[i][:, None]
+        blocked = np.any(T < dij, axis=1)
+        G[i] = ~blocked
+        G[i, i] = False
+        if i + 1 < n:
+            ties += int(np.count_nonzero(T[i + 1:] == dij[i + 1:]))
+    return G.tolist(), ties
+
+
 def gabriel_exact(D, n):
     """(graph, number of right-angle ties) from exact integer distances"""
+    if n > 48:
+        return gabriel_exact_np(D, n)
     G = [[False] * n for _ in range(n)]
     ties = 0
     for i in range(n):
@@ -287,6 +307,11 @@ def case_coq(case, rec):
                                          case["shell"])
     else:
         mode = "(Gab %d%%nat)" % case["shell"]
+    if case["mode"] == "gabriel" and n > 24:
+        # larger Gabriel cases: the memoised model (Model/QSFast.v, equal to the model by C16_fast_model_equal)
+        adj = "[" + "; ".join(C.natlist([j for j in range(n) if rec["gabriel"][i][j]]) for i in range(n)) + "]"
+        return "(qs_gab_case_ok %s %s %d%%nat %s %s) && gabriel_fast_ok %s %s" % (
+            Dm, w, case["shell"], C.natlist(rec["labels"]), C.natlist(rec["centres"]), Dm, adj)
     s = "qs_case_ok %s %s %s %s %s" % (Dm, w, mode, C.natlist(rec["labels"]), C.natlist(rec["centres"]))
     if case["mode"] == "gabriel":
         G = "[" + "; ".join(C.blist(r) for r in rec["gabriel"]) + "]"
@@ -440,7 +465,7 @@ def run(ctx):
     shards = []
     for g in groups:
         body = ";\n ".join(texts[i] for i in g)
-        shards.append(C.SHARD_HEAD + "From Verif Require Import ListX QuickShift.\n"
+        shards.append(C.SHARD_HEAD + "From Verif Require Import ListX QuickShift QSFast.\n"
                       "Definition verdicts : list bool := [\n %s].\n"
                       "Eval vm_compute in (failing verdicts).\n" % body)
     outs = run_shards_retry(ctx.prop, shards)
@@ -525,6 +550,73 @@ def run(ctx):
             C.report_violation(ctx, "C16 fails on the implementation: the partition depends on which periodic images of "
                                     "the points are given (labels %s for X, %s for X + m*cell)" % (r0["labels"], r1["labels"]),
                                dict(case=c1, observed=r1, base_case=c0, base_observed=r0), found_input=True)
+    # ---- large point sets (162..400 points: beyond any chunk / block size of a vectorised rewrite).  Every case
+    # is judged on the implementation side by the brute-force Gabriel / basin-partition oracle (numpy, exact
+    # integers); the smallest Gabriel cases are also compared with the model in Coq (Model/QSFast.v: graph built
+    # once, rows walked in parallel -- proved equal to the model, C16_fast_model_equal).
+    def gen_large(mode, lo, hi, span):
+        n = ctx.rng.randint(lo, hi)
+        d = ctx.rng.choice([2, 2, 3])
+        X = [[ctx.rng.randint(-span, span) for _ in range(d)] for _ in range(n)]
+        c = dict(n=n, d=d, family="large_n", X=X, w=ctx.rng.sample(range(-n, 2 * n), n), cell=None, mode=mode)
+        if mode == "gabriel":
+            c["shell"] = ctx.rng.choice([1, 2])
+        else:
+            c.update(cuts=[ctx.rng.randint(0, 6 * span) + 0.125 for _ in range(n)], cut_kind="large_n",
+                     scale=ctx.rng.choice(SCALES))
+        return c
+    n_lcoq, n_lgab, n_lcut = (1, 1, 1) if ctx.quick else (3, 6, 4)
+    lcases = ([gen_large("gabriel", 162, 176, 25) for _ in range(n_lcoq)] +
+              [gen_large("gabriel", 177, 400, 60) for _ in range(n_lgab)] +
+              [gen_large("cut", 162, 400, 60) for _ in range(n_lcut)])
+    lrecs = [run_impl(c) for c in lcases]
+    lstats = dict(cases=len(lcases), n=[c["n"] for c in lcases], modes=[c["mode"] for c in lcases],
+                  compared_in_coq=0, oracle_runs=0, clusters=[], gabriel_edges=[])
+    lshards, lwhich = [], []
+    for k in range(n_lcoq):
+        c, r = lcases[k], lrecs[k]
+        if "error" in r:
+            continue
+        D = np.array(r["D"])
+        if not np.all(np.abs(D - np.rint(D)) <= 1e-9 * np.maximum(1, np.abs(D))):
+            continue                      # the oracle below reports it
+        n = c["n"]
+        Dm = "[" + "; ".join("[" + "; ".join("None" if i == j else "Some %d" % int(round(r["D"][i][j]))
+                                             for j in range(n)) + "]" for i in range(n)) + "]"
+        adj = "[" + "; ".join(C.natlist([j for j in range(n) if r["gabriel"][i][j]]) for i in range(n)) + "]"
+        lshards.append(C.SHARD_HEAD + "From Verif Require Import ListX QuickShift QSFast.\n"
+                       "Definition Dm : list (list ExtZ) := %s.\n"
+                       "Definition verdicts : list bool := [\n qs_gab_case_ok Dm %s %d%%nat %s %s;\n gabriel_fast_ok Dm %s].\n"
+                       "Eval vm_compute in (failing verdicts).\n"
+                       % (Dm, C.zlist(c["w"]), c["shell"], C.natlist(r["labels"]), C.natlist(r["centres"]), adj))
+        lwhich.append(k)
+    lbroken = {}
+    for k, (rc, out) in zip(lwhich, run_shards_retry(ctx.prop, lshards)):
+        lists = C.parse_nat_lists(out)
+        if rc != 0 or len(lists) != 1:
+            corr_broken.append(out[-1500:])
+            continue
+        lstats["compared_in_coq"] += 1
+        if lists[0]:
+            lbroken[k] = lists[0]
+    for k, (c, r) in enumerate(zip(lcases, lrecs)):
+        msg = oracle(c, r)
+        lstats["oracle_runs"] += 1
+        if "labels" in r:
+            lstats["clusters"].append(len(set(r["labels"])))
+        if "gabriel" in r:
+            lstats["gabriel_edges"].append(sum(map(sum, r["gabriel"])) // 2)
+        if msg:
+            C.report_violation(ctx, "C16 fails on the implementation (%d points): %s" % (c["n"], msg),
+                               dict(case=c, observed=dict(labels=r.get("labels"), centres=r.get("centres"),
+                                                          error=r.get("error"), error_msg=r.get("error_msg"))),
+                               found_input=True)
+        elif k in lbroken:
+            C.report_violation(ctx, "correspondence QuickShift model (QSFast) vs implementation broken on a %d-point set "
+                                    "(failing verdicts %s: 0 = labels/centres, 1 = Gabriel graph)" % (c["n"], lbroken[k]),
+                               dict(case=c, observed=dict(labels=r.get("labels"), centres=r.get("centres"))),
+                               found_input=False)
+    stats["large_n"] = lstats
     # ---- session family: histories on estimator objects sharing caller-owned arrays (Model/QSSession.v)
     P = sys.modules[__name__]
     nsess = 220 if ctx.quick else 1200
